@@ -1,6 +1,7 @@
 import RexModel.Async.Machine
 import RexModel.Async.Pipeline
 import RexModel.Async.FullPipe
+import RexModel.Async.Guard
 import Mathlib.Algebra.Order.Field.Basic
 import Mathlib.Tactic.Linarith
 import Mathlib.Order.Monotone.Basic
@@ -266,6 +267,15 @@ theorem machine_latest_policy {α : Type} [LinearOrder α] (skip : Bool) (tsStep
   have e2 := (key (fun ts => !nb_latest_break skip ts tsStep) q).2
   rw [e1, e2]
   exact ⟨latest_consumed_arrived skip tsStep q, latest_rest_not_consumable skip tsStep q hs⟩
+
+/-- **No qualifying message is left behind because it was not visible yet**: `push_expected_nonblocking` counts only once an
+arrival in the step's strict future is queued, and from then on the count is the same whatever arrives later — so a step gets every
+message of the (FIFO) arrival stream that the policy lets it consume, not just those its thread happened to see. (With a wait
+condition `ts ≥ ts_step` this fails: a later arrival with the same receive time would still qualify on a non-skipped connection.) -/
+theorem C03_count_final_once_future_seen {T : Type} [TimeLike T] (cc : ConnCfg T) (tsStep : T) (pre rest : List (Val T))
+    (h : ∃ v ∈ pre, isFuture tsStep v = true) :
+    nbCount cc tsStep (pre ++ rest) = nbCount cc tsStep pre :=
+  nbCount_needed_prefix cc tsStep pre rest h
 
 /-- **Exactly once, in arrival order, under every schedule** (machine level, last stage of a connection): along every execution
 of the asynchronous machine, the sequence "messages recorded as consumed, followed by messages arrived but not yet consumed" of a
